@@ -100,6 +100,12 @@ func sanitizersForAttributeValue(c context) ([]string, error) {
 	ret = append(ret, sanitizeHTMLFuncName)
 	sanitizer := sc0.sanitizerName()
 	if !sc0.isURLorTrustedResourceURL() {
+		if sanitizer == "" {
+			// The context has no sanitizer of its own. Stringify the value first, so that
+			// a safehtml.HTML value is HTML-escaped like any other value instead of being
+			// passed through unescaped by _sanitizeHTML.
+			sanitizer = evalArgsFuncName
+		}
 		return reverse(appendIfNotEmpty(ret, sanitizer)), nil
 	}
 	urlAttrValPrefix := c.attr.value
